@@ -158,10 +158,11 @@ def run(ctx):
     rnd = random.Random(ctx.seed * 961748941 + 18)
     c01.gates(ctx, thorough)
     # the sizing algorithm itself is prefix-stable: theorem of AsmSizing evaluated by TLC for all programs of <= 3 (thorough: 4) items x appended item
-    recs, w = tlc.export_parts("MC_SizingPrefix", 8, env={"MAXN": "4" if thorough else "3"}, timeout=3000, heap="4g")
-    if sum(r["bad"] for r in recs):
-        raise tlc.MachineryError("MC_SizingPrefix: the sizing model is not prefix-stable: %r" % [r["example"] for r in recs if r["bad"]][:1])
-    ctx.cov["models"]["MC_SizingPrefix"] = {"kind": "theorem evaluated by TLC", "programs": sum(r["progs"] for r in recs), "wall_s": round(w, 2)}
+    if not tlc.skip_gates():
+        recs, w = tlc.export_parts("MC_SizingPrefix", 8, env={"MAXN": "4" if thorough else "3"}, timeout=3000, heap="4g")
+        if sum(r["bad"] for r in recs):
+            raise tlc.MachineryError("MC_SizingPrefix: the sizing model is not prefix-stable: %r" % [r["example"] for r in recs if r["bad"]][:1])
+        ctx.cov["models"]["MC_SizingPrefix"] = {"kind": "theorem evaluated by TLC", "programs": sum(r["progs"] for r in recs), "wall_s": round(w, 2)}
     t0 = time.time()
     n = 60000 if thorough else 4000
     pairs, r = tlc.export("Gen_SizingPrefix", env={"N": "1400" if thorough else "700", "FULL4": "0"}, extra=["-seed", str(ctx.seed + 3)])
